@@ -91,3 +91,45 @@ Proof.
   pose proof (flag_restored m QMsg None) as F. destruct (recv_first m QMsg None false) as [[o0 cs0] f1] eqn:E0. cbn [snd] in F. subst f1.
   destruct (recv_all m n q d false) as [[o cs'] f2]. cbn [fst snd] in *. rewrite IH, <- app_assoc. reflexivity.
 Qed.
+
+(* ---- timed waits interrupted by a signal ---- *)
+(* without a signal nothing changes *)
+Theorem sig_conservative : forall m q d f,
+  recv_first_sig m q d false f = (let '(o, cs, f') := recv_first m q d f in (SOut o, map SCall cs, f')).
+Proof. intros [| |us] [] d f; reflexivity. Qed.
+
+(* the flag never leaks out of a call, interrupted or not *)
+Theorem sig_flag_restored : forall m q d i, snd (recv_first_sig m q d i false) = false.
+Proof.
+  intros m q d i. pose proof (flag_restored m q d) as F.
+  destruct m as [| |us]; destruct q; destruct i; cbn [recv_first_sig]; try reflexivity;
+    destruct (recv_first _ _ d false) as [[o cs] f1]; cbn [snd] in *; exact F.
+Qed.
+
+Theorem sig_flag_restored_run : forall ops, snd (run_sig false ops) = false.
+Proof.
+  induction ops as [|[[[m q] d] i] r IH]; [reflexivity|]. cbn [run_sig].
+  pose proof (sig_flag_restored m q d i) as F. destruct (recv_first_sig m q d i false) as [[o cs] f1]. cbn [snd] in F. subst f1.
+  destruct (run_sig false r) as [[os cs'] f2]. cbn [snd] in *. exact IH.
+Qed.
+
+(* an interrupted wait is reported as such: never as 'empty', never as a message or a disconnection; one poll, no recvmsg *)
+Theorem sig_interrupted_wait : forall us d f,
+  recv_first_sig (MTimeout us) QIdle d true f = (SInterrupted, [SPollIntr (poll_arg us)], f).
+Proof. reflexivity. Qed.
+
+(* 'empty' from a timed receive still means: one poll, with the full timeout, that found nothing - and no signal *)
+Theorem sig_empty_only_after_full_wait : forall us q d i f cs f',
+  recv_first_sig (MTimeout us) q d i f = (SOut OEmpty, cs, f') ->
+  cs = [SCall (CPoll (poll_arg us) false)] /\ q = QIdle /\ i = false /\ (d = None \/ d = Some QIdle).
+Proof.
+  intros us q d i f cs f' H.
+  destruct q; destruct i; cbn [recv_first_sig] in H; try discriminate;
+    destruct (recv_first (MTimeout us) _ d f) as [[o cs0] f0] eqn:E; injection H as Ho <- <-; subst o;
+    destruct (timeout_empty_only_after_full_wait _ _ _ _ _ _ _ E eq_refl) as (-> & Hq & Hd); try discriminate; auto.
+Qed.
+
+(* try_recv and the blocking receive do not wait in poll: a signal aimed at the wait changes nothing for them *)
+Theorem sig_only_timed : forall m q d i f, (forall us, m <> MTimeout us) ->
+  recv_first_sig m q d i f = recv_first_sig m q d false f.
+Proof. intros [| |us] q d i f H; try reflexivity. exfalso; eapply H; reflexivity. Qed.
